@@ -84,6 +84,13 @@ pub struct Program {
 }
 
 impl Program {
+    /// some dispatch_blocking closure panics (kills its pool thread)
+    pub fn blocking_panics(&self) -> bool {
+        self.tasks
+            .iter()
+            .any(|t| t.kind == "blocking" && t.body.contains(&Step::Panic))
+    }
+
     pub fn uses_pool(&self) -> bool {
         self.tasks
             .iter()
@@ -260,6 +267,40 @@ pub fn generate(seed: u64, iour_ok: bool) -> Program {
         watchdog_ms: 30_000,
         threads,
         tasks,
+    }
+}
+
+/// Scenario of the second known finding (AsyncifyPool): two threads call dispatch_blocking at the
+/// same time, one closure panics at once. When the pool thread spawned by the other caller is
+/// handed the panicking closure it dies, and that caller's rendezvous send never completes.
+pub fn scenario_poolpanic() -> Program {
+    Program {
+        seed: 0,
+        nw: 1,
+        concurrent: true,
+        driver: "poll".into(),
+        fault: "none".into(),
+        pool_limit: 0,
+        main_rt: false,
+        sender_rt: false,
+        join_delay_us: 0,
+        watchdog_ms: 8_000,
+        threads: vec![
+            vec![Op::Dispatch { id: 1 }, Op::Wait { id: 1 }],
+            vec![Op::Dispatch { id: 2 }, Op::Wait { id: 2 }],
+        ],
+        tasks: vec![
+            TaskSpec {
+                id: 1,
+                kind: "blocking".into(),
+                body: vec![Step::Panic],
+            },
+            TaskSpec {
+                id: 2,
+                kind: "blocking".into(),
+                body: vec![],
+            },
+        ],
     }
 }
 
